@@ -82,7 +82,7 @@ pub fn plausible(ev: &Ev, effect_then_fail: bool) -> Vec<Action> {
     }
 }
 
-fn action_json(a: &Action) -> Value {
+pub fn action_json(a: &Action) -> Value {
     match a {
         Action::Fail(e) => json!({"fail": e}),
         Action::FailAfter(e) => json!({"fail_after": e}),
@@ -90,7 +90,7 @@ fn action_json(a: &Action) -> Value {
         _ => json!("none"),
     }
 }
-fn action_from(v: &Value) -> Action {
+pub fn action_from(v: &Value) -> Action {
     if let Some(e) = v.get("fail").and_then(|x| x.as_i64()) {
         Action::Fail(e as i32)
     } else if let Some(e) = v.get("fail_after").and_then(|x| x.as_i64()) {
